@@ -168,6 +168,9 @@ Proof. intros. unfold get. apply app_nth1. auto. Qed.
 Lemma get_app_new : forall h x i, get (h ++ x) (length h + i) = nth i x dummy.
 Proof. intros. unfold get. rewrite app_nth2 by lia. f_equal. lia. Qed.
 
+Lemma get_app_here : forall h n, get (h ++ [n]) (length h) = n.
+Proof. intros. unfold get. rewrite app_nth2 by lia. rewrite Nat.sub_diag. reflexivity. Qed.
+
 Lemma get_beyond : forall h r, length h <= r -> get h r = dummy.
 Proof. intros. unfold get. apply nth_overflow. auto. Qed.
 
@@ -265,16 +268,16 @@ Proof. intros h h' P Hc He x p Hx Hp. unfold edge in Hp. rewrite He in Hp; auto.
 Lemma below_pclosed : forall h, closed h -> pclosed h (fun x => x < length h).
 Proof. intros h Hc x p _ Hp. eapply Hc; eauto. Qed.
 
-Lemma hinv_alloc : forall h nm pr ps,
+Lemma hinv_alloc : forall h nm pr u ps,
   hinv h -> (forall p, In p ps -> p < length h) -> NoDup ps ->
-  hinv (h ++ [mkNode nm pr (length h) ps]).
+  hinv (h ++ [mkNode nm pr u ps]).
 Proof.
-  intros h nm pr ps (Hc & Hn & Ha) Hps Hnd.
-  set (h' := h ++ [mkNode nm pr (length h) ps]).
+  intros h nm pr u ps (Hc & Hn & Ha) Hps Hnd.
+  set (h' := h ++ [mkNode nm pr u ps]).
   assert (Hold : forall z, z < length h -> parents h' z = parents h z).
   { intros z Hz. unfold parents, h'. rewrite get_app_old; auto. }
   assert (Hnew : parents h' (length h) = ps).
-  { unfold parents, h'. replace (length h) with (length h + 0) at 2 by lia. rewrite get_app_new. reflexivity. }
+  { unfold parents, h'. rewrite get_app_here. reflexivity. }
   assert (Hlen : length h' = S (length h)).
   { unfold h'. rewrite app_length. simpl. lia. }
   assert (Htgt : forall c p, edge h' c p -> p < length h).
